@@ -17,9 +17,10 @@ def run(ctx):
         "is what the correspondence observes",
         "handleTransaction is modelled only as far as the state layers go: cache.Reset, writes, Commit on success (C15/C16 own the rest); "
         "this discipline is what the blockdigest stream observes on the real block executor",
-        "StateStore.AddStateMerkleTreeRoot consumes only the digest (by inspection; the accumulator itself is C06)",
+        "AddStateMerkleTreeRoot / GetStateMerkleRootWithNewHash are modelled over C06's compact-tree model (imported unchanged; its "
+        "invariant Inv is the hypothesis 'well-formed state tree'); heights below stateHashCheckHeight (0 in NewStateStore) are not modelled",
     ]
-    ctx.cov["trusted_base"] += ["harness hkv/digest + hkv/blockdigest + drv_kv (correspondence check)", "Lean compiler for the driver"]
+    ctx.cov["trusted_base"] += ["harness hkv/digest + hkv/blockdigest + hkv/stateroot + drv_kv (correspondence check)", "Poly.Model.Merkle / Poly.Proofs.MerkleTree (C06, imported)", "Lean compiler for the driver"]
     ctx.lean_props()
     hbin = ctx.build_harness("hkv")
     drv = ctx.build_driver("drv_kv")
@@ -29,4 +30,7 @@ def run(ctx):
         res = ctx.correspondence("blockdigest", hbin, ["blockdigest"], drv, ["blockdigest"])
         ctx.judge(res, theorem_hint="Poly.Props.C11.block_buffer_is_replay / digest_tx_grouping (model runBlock no longer matches "
                                     "Ledger.ExecuteBlock's digest and write set)")
+        res = ctx.correspondence("stateroot", hbin, ["stateroot"], drv, ["stateroot"])
+        ctx.judge(res, theorem_hint="Poly.Props.C11.state_root_step / delta_root_fn (model of GetStateMerkleRootWithNewHash / "
+                                    "AddStateMerkleTreeRoot no longer matches the ledger's predicted and recorded state roots)")
     ctx.judge_lean()
